@@ -34,6 +34,7 @@ RULE = (
     "on the peak channel)/rate*1e3 with NaN for emptied ids; channels.rawInd cut per probe == "
     "each probe's original channel map. Single datasets are, in half of the cases, curated again, "
     "reloaded and exported a second time into the same directory (force=True) and verified again. "
+    "One hand-made curated dataset has 300 templates with uint16 ids (thorough: also 257). "
     "Non-trivial: merged with >=3 probes, or a distance tie at "
     "the cut, or factor != 1, or an emptied cluster id.")
 ASSUMPTIONS = ['pc-feature stores that hold all spikes', 'float32 storage: rtol 1e-4',
@@ -59,9 +60,19 @@ def _case(draw):
     return {'k': 'merged', 'probes': mc['probes'], 'factor': factor, 'ncc': ncc}
 
 
+def _large_cases(th):
+    yield {'k': 'single', 'spec': D.large_curated_spec(), 'factor': 2.5, 'ncc': 3, 'large': True}
+    if th:
+        yield {'k': 'single', 'spec': D.large_curated_spec(nt=257, ns=1200, seed=11), 'factor': 1,
+               'ncc': 4, 'large': True}
+
+
 def drivers(tier):
     th = tier == 'thorough'
-    return [dict(kind='hyp', name='exports', strategy=_case(), examples=50000 if th else 6000)]
+    return [dict(kind='hyp', name='exports', strategy=_case(), examples=50000 if th else 6000),
+            dict(kind='enum', name='large', exhaustive=False, bound='300 (thorough: also 257) '
+                 'templates with uint16 ids, merges involving high ids',
+                 cases=lambda: _large_cases(th))]
 
 
 # ---------------------------------------------------------------------------------------------
@@ -302,7 +313,8 @@ def check(case):
 
 
 def classify(case, info):
-    labels = [case['k'], 'factor:%r' % case['factor'], 'ncc:%s' % ('<=4' if case['ncc'] <= 4 else '>4')]
+    labels = (['large:uint16-template-ids'] if case.get('large') else []) + [
+        case['k'], 'factor:%r' % case['factor'], 'ncc:%s' % ('<=4' if case['ncc'] <= 4 else '>4')]
     nt = False
     if case['k'] == 'merged':
         labels.append('probes:%d' % len(case['probes']))
